@@ -402,7 +402,7 @@ pub fn run(ctx: &Ctx, replay: Option<&J>) -> CheckResult {
             };
         }
     }
-    let lists = ctx.n(600_000, 20_000_000);
+    let lists = ctx.n(600_000, 60_000_000);
     let (mut ev, mut vs) = par_shards(48, |shard| {
         let mut ev = Evidence::new();
         ev.sample_cap = 1;
@@ -442,7 +442,7 @@ pub fn run(ctx: &Ctx, replay: Option<&J>) -> CheckResult {
         (ev, vs)
     });
     // hostile frames
-    let frames = ctx.n(300_000, 10_000_000);
+    let frames = ctx.n(300_000, 40_000_000);
     let (fev, fvs) = par_shards(32, |shard| {
         let mut ev = Evidence::new();
         ev.sample_cap = 1;
